@@ -202,5 +202,32 @@ def gen_block_program(rng):
     return rules + "\n".join(lines) + "\n"
 
 
+def gen_file_constant_program(rng):
+    """a statically known constant that only the first pass can evaluate (it reads a file), declared
+    after items that consume it; mostly without labels, so that the first pass changes nothing else"""
+    rules = "#ruledef\n{\n    halt => 0x55\n    emit {v} => 0x10 @ v`8\n    wide {v} => { assert(v < 4), 0x20 }\n    wide {v} => { assert(v >= 4), 0x3000 }\n}\n"
+    cname = rng.choice(["c", "k", "size"])
+    uses = ["#res %s" % cname, "#res %s * 2" % cname, "#res %s - %s" % (cname, cname), "#d8 %s" % cname, "    emit %s" % cname,
+            "    wide %s" % cname, "#res (%s > 2 ? 1 : 0)" % cname]
+    fixed = ["#d8 1", "    halt", "#res 1", "#d16 0x1234"]
+    lines = []
+    for _ in range(rng.randrange(1, 4)):
+        lines.append(rng.choice(uses) if rng.random() < 0.7 else rng.choice(fixed))
+    if rng.random() < 0.2:
+        lines.insert(rng.randrange(len(lines) + 1), "lab:")
+    hi = rng.randrange(0, 4)
+    value = rng.choice(['incbin("main.asm")[%d:0]' % hi, 'incbin("main.asm")[%d:%d]' % (hi + 8, 8), 'incbin("main.asm")[%d:0] + 1' % hi,
+                        'incbin("main.asm", 0, 1)[%d:0]' % hi])
+    lines.append("%s = %s" % (cname, value))
+    if rng.random() < 0.4:
+        lines.append("d2 = %s + 1" % cname)
+    for _ in range(rng.randrange(0, 3)):
+        lines.append(rng.choice(uses + fixed))
+    return (rules if rng.random() < 0.8 else rules.replace("halt => 0x55\n", "")) + "\n".join(lines) + "\n"
+
+
 def gen_any(rng):
-    return gen_block_program(rng) if rng.random() < 0.3 else gen_program(rng)
+    r = rng.random()
+    if r < 0.08:
+        return gen_file_constant_program(rng)
+    return gen_block_program(rng) if r < 0.36 else gen_program(rng)
